@@ -12,8 +12,8 @@ from fractions import Fraction
 from .. import common, formula as F, impl, disc, dense as D
 from ..engine import Violation, Ctx
 
-RULE = ("formulas of the C19 fragment (depth<=4, bounds 0..4 periods), P in {1, 0.25, 0.5} time units, traces of 2..12 samples over "
-        "dyadic values, 1-3 variables; compared at all k with k+hor<n. distinct by (spec, P, data); non-trivial when some settled "
+RULE = ("formulas of the C19 fragment (depth<=4, bounds 0..6 periods), P in {1, 0.25, 0.5} time units, traces of horizon+2..horizon+12 samples over "
+        "dyadic values (random, piecewise monotone runs after extreme samples, two-valued), 1-3 variables; compared at all k with k+hor<n. distinct by (spec, P, data); non-trivial when some settled "
         "value is finite or the settled values are not constant.")
 EXPLANATION = ("theorem C19_sampled: for grid-aligned bounds and grid step signals rhoD at k*P equals rho at sample k whenever "
                "k + hor < n (Lean, via the step-function theory of RtamtProofs/Dense/Step.lean). Correspondence: the two real "
@@ -23,13 +23,59 @@ ALLOW = {"arith", "cmp", "bool", "iffxor", "not", "past_c", "bpast", "bfuture"}
 REGIONS = {}
 
 
-def gen_case(rng):
-    g = D.DGen(rng, D.VARS, ALLOW, max_bound=rng.choice([1, 2, 4]))
-    f = g.formula(rng.choice([1, 2, 3, 4]))
-    P = rng.choice([Fraction(1), Fraction(1, 4), Fraction(1, 2)])
-    n = rng.randint(2, 12)
-    vs = F.variables(f) or ["x"]
-    return {"f": f, "P": P, "n": n, "data": F.gen_trace(rng, vs, n), "vars": vs}
+def gen_values(rng, n):
+    """Sample values: random, or piecewise monotone runs / plateaus (the sliding-window algorithms of the dense monitors keep
+    monotone candidate lists: runs of 3 and more descending or ascending samples after an extreme one exercise their eviction)."""
+    mode = rng.choice(["random", "random", "runs", "runs", "few"])
+    vals = (-3.0, -2.0, -1.0, -0.5, 0.0, 0.5, 1.0, 2.0, 3.0, 4.0)
+    if mode == "random":
+        return [rng.choice(vals) for _ in range(n)]
+    if mode == "few":
+        a, b = rng.choice(vals), rng.choice(vals)
+        return [rng.choice([a, b]) for _ in range(n)]
+    out = []
+    while len(out) < n:
+        k = rng.randint(1, 5)
+        start = rng.choice(vals)
+        step = rng.choice([-1.0, -0.5, 0.0, 0.5, 1.0])
+        if out and rng.random() < 0.5:
+            out.append(rng.choice([-4.0, 5.0]))      # an extreme sample before the run
+        out.extend(start + step * i for i in range(k))
+    return out[:n]
+
+
+def gen_formula(rng):
+    g = D.DGen(rng, D.VARS, ALLOW, max_bound=rng.choice([1, 2, 4, 6]))
+    if rng.random() < 0.4:
+        # one bounded temporal operator (window width up to 6 periods) over a shallow operand, possibly under one more operator
+        a = rng.randint(0, 3)
+        b = a + rng.randint(0, 6)
+        inner = g.formula(rng.choice([0, 0, 1]))
+        f = ("tb1", rng.choice(["ev", "alw", "once", "hist"]), a, b, inner)
+        k = rng.random()
+        if k < 0.2:
+            f = ("u", "not", f)
+        elif k < 0.4:
+            f = ("b", rng.choice(["and", "or"]), f, g.formula(1))
+        elif k < 0.5:
+            a2 = rng.randint(0, 2)
+            f = ("tb1", rng.choice(["ev", "alw", "once", "hist"]), a2, a2 + rng.randint(0, 3), f)
+        return f
+    return g.formula(rng.choice([1, 2, 3, 4]))
+
+
+def gen_cases(rng, count):
+    fs = [gen_formula(rng) for _ in range(count)]
+    hs = [int(o[3:].split("|")[0]) for o in common.driver_run(["past | " + F.to_proto(f) for f in fs])]
+    out = []
+    for f, h in zip(fs, hs):
+        P = rng.choice([Fraction(1), Fraction(1, 4), Fraction(1, 2)])
+        n = min(h, 12) + rng.randint(2, 12)
+        vs = F.variables(f) or ["x"]
+        out.append({"f": f, "P": P, "n": n, "h": h, "data": {v: gen_values(rng, n) for v in vs}, "vars": vs})
+    for c, o in zip(out, common.driver_run([disc.proto_case("rhot", c["f"], c["data"], c["n"]) for c in out])):
+        c["m_rho"] = disc.parse_model(o)
+    return out
 
 
 def bound_txt(P):
@@ -48,7 +94,7 @@ def check_case(ctx, c):
     # discrete offline with sampling period P
     per_ms = int(P * 1000)
     dsc = impl.eval_offline_discrete(text, vs, data, n, sampling=(per_ms, "ms", 0.1))
-    h = int(common.driver_run(["past | " + F.to_proto(f)])[0][3:].split("|")[0])
+    h = c["h"] if "h" in c else int(common.driver_run(["past | " + F.to_proto(f)])[0][3:].split("|")[0])
     rep = {"spec": text, "formula": F.to_proto(f), "P": str(P), "n": n, "data": data, "horizon": h, "impl_dense": dn, "impl_discrete": dsc}
     if dn[0] != "ok" or dsc[0] != "ok":
         return Violation("evaluation raised: dense %r, discrete %r: %s" % (dn[:2], dsc[:2], text), rep, stream="grid")
@@ -64,8 +110,7 @@ def check_case(ctx, c):
             return Violation("at the sampling instant t=%s (sample %d, horizon %d, n=%d) the dense-time robustness is %r and the "
                              "discrete-time robustness is %r: %s" % (P * k, k, h, n, a, b, text), rep, stream="grid")
     # models
-    outs = common.driver_run([disc.proto_case("rhot", f, data, n)])
-    m_rho = disc.parse_model(outs[0])
+    m_rho = c["m_rho"] if "m_rho" in c else disc.parse_model(common.driver_run([disc.proto_case("rhot", f, data, n)])[0])
     if m_rho[0] == "ok":
         for k in settled:
             if not common.num_eq(dv[k], m_rho[1][k]):
@@ -76,8 +121,7 @@ def check_case(ctx, c):
 
 
 def explore(ctx, rng, count):
-    for _ in range(count):
-        c = gen_case(rng)
+    for c in gen_cases(rng, count):
         ctx.evaluations += 1
         ctx.count("P=%s" % c["P"])
         v = check_case(ctx, c)
@@ -100,8 +144,8 @@ def replay(ctx, obj):
 
 
 def run(ctx):
-    explore(ctx, ctx.subrng("grid"), ctx.budget(300, 6000))
+    explore(ctx, ctx.subrng("grid"), ctx.budget(1500, 15000))
 
 
 def search(ctx):
-    explore(ctx, ctx.subrng("search"), ctx.budget(1000, 6000))
+    explore(ctx, ctx.subrng("search"), ctx.budget(3000, 15000))
